@@ -185,3 +185,23 @@ CHECKS['C18']['stages'].append(_fz('h_numeric', ['h_numeric.c'], max_len=100))
 CHECKS['C14']['stages'].append(_fz('h_partition', ['h_partition.c'], exclude=['lp/lp.c'], max_len=60))
 CHECKS['C11']['stages'].append(_fz('h_alloc', ['h_alloc.c']))
 CHECKS['C11']['stages'].append(_fz('h_numeric', ['h_numeric.c'], max_len=100))
+
+
+# ---- NDEBUG layout (the configuration the pinned tests are built with): smaller struct lp_msg, no assertions ----------------
+def _rt_nd(prop, q, t):
+    return stage('h_runtime', _RT_HX, name='h_runtime(DET, -DNDEBUG)', variant='core_ndebug',
+                 quick=dict(cases=q, min_nontrivial=50, time_budget=150, case_timeout=60),
+                 thorough=dict(cases=t, min_nontrivial=500, time_budget=900, case_timeout=300), env=dict(RSV_FREE=0))
+
+
+def _e4_nd(prop, q, t):
+    st = _e4(prop, q, t, 20)
+    st['variant'] = 'core_mpi_ndebug'
+    st['name'] = 'h_mpi(DET, 1..4 ranks, -DNDEBUG)'
+    return st
+
+
+for _p in ('C01', 'C06', 'C11', 'C03'):
+    CHECKS[_p]['stages'].append(_rt_nd(_p, 1500, 30000))
+for _p in ('C02', 'C06', 'C11'):
+    CHECKS[_p]['stages'].append(_e4_nd(_p, 1200, 24000))
